@@ -45,7 +45,9 @@ Qed.
 Lemma uds_fail st dev st' e : l_update_device_state st dev = (st', Some e) -> st' = st.
 Proof. unfold l_update_device_state. destruct (ds_row st); [discriminate|]. now intros [= <-]. Qed.
 
-Lemma adv_row st a nf kw st' : l_advance_fup st a nf kw = (st', None) ->
+Lemma keq_refl k : bytes_eqb k k = true.
+Proof. now apply bytes_eqb_spec. Qed.
+Lemma adv_row st key a nf kw st' : l_advance_fup st key a nf kw = (st', None) ->
   exists r, ds_row st = Some r /\ d_fup r <= a /\
     ds_row st' = Some {| d_eui := d_eui r; d_addr := d_addr r; d_appkey := d_appkey r; d_appskey := d_appskey r;
                          d_nwkskey := d_nwkskey r; d_appeui := d_appeui r; d_state := d_state r;
@@ -53,19 +55,34 @@ Lemma adv_row st a nf kw st' : l_advance_fup st a nf kw = (st', None) ->
     ds_inbox st' = ds_inbox st /\ ds_outbox st' = ds_outbox st /\ ds_nonces st' = ds_nonces st /\ ds_fb st' = ds_fb st.
 Proof.
   unfold l_advance_fup. destruct (ds_row st) as [r|]; [|discriminate]. destruct (N.leb_spec (d_fup r) a) as [L|L]; [|discriminate].
-  intros [= <-]. exists r. repeat split. exact L.
+  destruct (bytes_eqb (d_nwkskey r) key); [|discriminate]. intros [= <-]. exists r. repeat split. exact L.
 Qed.
-Lemma adv_fail st a nf kw st' e : l_advance_fup st a nf kw = (st', Some e) -> st' = st /\ e = SNotFound.
-Proof. unfold l_advance_fup. destruct (ds_row st) as [r|]; [destruct (d_fup r <=? a)|]; intros [= <- <-]; auto. Qed.
-Lemma next_row st st' c : l_next_fdn st = (st', Some c) ->
+Lemma adv_row_key st key a nf kw st' r : l_advance_fup st key a nf kw = (st', None) -> ds_row st = Some r -> d_nwkskey r = key.
+Proof.
+  unfold l_advance_fup. intros H Hr. rewrite Hr in H. destruct (d_fup r <=? a); [|discriminate].
+  destruct (bytes_eqb (d_nwkskey r) key) eqn:E; [|discriminate]. now apply bytes_eqb_spec.
+Qed.
+Lemma adv_fail st key a nf kw st' e : l_advance_fup st key a nf kw = (st', Some e) -> st' = st /\ e = SNotFound.
+Proof. unfold l_advance_fup. destruct (ds_row st) as [r|]; [destruct ((d_fup r <=? a) && bytes_eqb (d_nwkskey r) key)|]; intros [= <- <-]; auto. Qed.
+Lemma next_row st key st' c : l_next_fdn st key = (st', Some c) ->
   exists r, ds_row st = Some r /\ c = d_fdn r /\
     ds_row st' = Some {| d_eui := d_eui r; d_addr := d_addr r; d_appkey := d_appkey r; d_appskey := d_appskey r;
                          d_nwkskey := d_nwkskey r; d_appeui := d_appeui r; d_state := d_state r;
                          d_fup := d_fup r; d_fdn := (d_fdn r + 1) mod 65536; d_relaxed := d_relaxed r; d_keywarn := d_keywarn r; d_nonces := [] |} /\
     ds_inbox st' = ds_inbox st /\ ds_outbox st' = ds_outbox st /\ ds_nonces st' = ds_nonces st /\ ds_fb st' = ds_fb st.
-Proof. unfold l_next_fdn. destruct (ds_row st) as [r|]; [|discriminate]. intros [= <- <-]. exists r. repeat split. Qed.
-Lemma next_none st st' : l_next_fdn st = (st', None) -> st' = st /\ ds_row st = None.
-Proof. unfold l_next_fdn. destruct (ds_row st) as [r|]; [discriminate|]. intros [= <-]. auto. Qed.
+Proof.
+  unfold l_next_fdn. destruct (ds_row st) as [r|]; [|discriminate]. destruct (negb (bytes_eqb (d_nwkskey r) key)); [discriminate|].
+  intros [= <- <-]. exists r. repeat split.
+Qed.
+Lemma next_none st key st' : l_next_fdn st key = (st', None) -> st' = st /\ (ds_row st = None \/ exists r, ds_row st = Some r /\ d_nwkskey r <> key).
+Proof.
+  unfold l_next_fdn. destruct (ds_row st) as [r|]; [|intros [= <-]; auto].
+  destruct (bytes_eqb (d_nwkskey r) key) eqn:E; cbn [negb]; [discriminate|]. intros [= <-]. split; [reflexivity|]. right. exists r. split; [reflexivity|].
+  intros H. apply bytes_eqb_spec in H. congruence.
+Qed.
+(* within the session the statement finds the row *)
+Lemma next_same_session st r : ds_row st = Some r -> exists st', l_next_fdn st (d_nwkskey r) = (st', Some (d_fdn r)).
+Proof. intros H. unfold l_next_fdn. rewrite H, keq_refl. cbn [negb]. eexists. reflexivity. Qed.
 
 Section Local.
   Variable E D : list N -> list N -> list N.
@@ -96,7 +113,7 @@ Section Local.
   Definition fb_down (st : dstate) : Prop := match ds_fb st with Some fd => down_type (fo_mtype fd) | None => True end.
 
   Lemma pm_counter_spec st dev f n st1 dev1 r :
-    ds_row st = Some r -> d_eui dev = d_eui r -> d_fup dev = d_fup r -> d_fdn dev = d_fdn r ->
+    ds_row st = Some r -> d_eui dev = d_eui r -> d_fup dev = d_fup r -> d_fdn dev = d_fdn r -> d_nwkskey dev = d_nwkskey r ->
     pm_counter st dev f n = Some (st1, dev1) ->
     exists r1, ds_row st1 = Some r1 /\ same_session r r1 /\ d_fdn dev1 = d_fdn dev /\ d_eui dev1 = d_eui dev /\
       d_nwkskey dev1 = d_nwkskey dev /\ d_appskey dev1 = d_appskey dev /\ d_addr dev1 = d_addr dev /\
@@ -104,10 +121,10 @@ Section Local.
       ((d_fup dev <=? fcnt f) = true /\ d_fup dev1 = (fcnt f + 1) mod 65536 /\ d_fup r1 = d_fup dev1 /\ d_fdn r1 = d_fdn dev \/
        (d_fup dev <=? fcnt f) = false /\ d_fup dev1 = d_fup dev /\ r1 = r).
   Proof.
-    intros Hr He Hfu Hfd. unfold pm_counter. destruct (d_fup dev <=? fcnt f) eqn:Ec.
-    - destruct (l_advance_fup _ _ _ _) as [x [e|]] eqn:U.
+    intros Hr He Hfu Hfd Hk. unfold pm_counter. destruct (d_fup dev <=? fcnt f) eqn:Ec.
+    - destruct (l_advance_fup _ _ _ _ _) as [x [e|]] eqn:U.
       + (* the handler's copy agrees with the row, so the store's comparison succeeds too *)
-        exfalso. unfold l_advance_fup in U. rewrite Hr in U. rewrite <- Hfu, Ec in U. discriminate.
+        exfalso. unfold l_advance_fup in U. rewrite Hr in U. rewrite <- Hfu, Ec, Hk, keq_refl in U. discriminate.
       + intros [= <- <-].
         apply adv_row in U. destruct U as (r0 & R0 & _ & R1 & R2 & R3 & R4 & R5). rewrite Hr in R0. injection R0 as <-.
         eexists. split; [exact R1|]. cbn. repeat split; auto.
@@ -229,7 +246,7 @@ Section Local.
     destruct (stale r f) eqn:Es; [apply summary_unchanged; assumption|].
     destruct (pm_counter st (load st r) f n) as [[st1 dev1]|] eqn:Ec.
     2:{ apply summary_unchanged; assumption. }
-    destruct (pm_counter_spec st (load st r) f n st1 dev1 r Hr eq_refl eq_refl eq_refl Ec)
+    destruct (pm_counter_spec st (load st r) f n st1 dev1 r Hr eq_refl eq_refl eq_refl eq_refl Ec)
       as (r1 & R1 & S1 & Fd1 & Eu1 & Kn1 & Ka1 & Ad1 & I1 & O1 & B1 & N1 & Hc).
     cbn [load d_fup d_fdn d_eui d_nwkskey d_appskey d_addr] in *.
     assert (Hup : d_fup r1 = d_fup r \/ ((d_fup r <=? fcnt f) = true /\ d_fup r1 = (fcnt f + 1) mod 65536)).
